@@ -166,6 +166,12 @@ func DoBatchWithOptions(ctx context.Context, op Operation, r DoBatchRing, keys [
 		return err
 	}
 
+	// Without keys there is no replica to call and nothing will ever signal the tracker.
+	if len(keys) == 0 {
+		o.Cleanup()
+		return nil
+	}
+
 	tracker := batchTracker{
 		done: make(chan struct{}, 1),
 		err:  make(chan error, 1),
